@@ -113,7 +113,9 @@ Definition exception_throw (k m : nat) (st : mstate) : mstate * mout :=
   let st' := MS (Some k) m (bufs st) (active st) in
   (st', jump_or_die st').
 
-(* "If no Arguments catch all", otherwise eq(arg, e->obj) for some arg *)
+(* "If no Arguments catch all", otherwise eq(get(args, $I(i)), e->obj) for some i < len(args).
+   (The pinned code walked the filter with foreach; see tuple_next / foreach_matches below for
+   why that is the same on duplicate-free filters only.) *)
 Definition matches (filters : list nat) (k : nat) : bool :=
   match filters with
   | [] => true
@@ -295,7 +297,7 @@ Definition expected_src_try_fail : string :=
 Definition expected_src_throw : string :=
   "{ struct Exception * e = current ( Exception ) ; e -> obj = obj ; print_to_with ( e -> msg , 0 , fmt , args ) ; if ( Exception_Len ( e ) >= 1 ) { longjmp ( * Exception_Buffer ( e ) , 1 ) ; } else { Exception_Error ( e ) ; } return NULL ; }".
 Definition expected_src_catch : string :=
-  "{ struct Exception * e = current ( Exception ) ; if ( not e -> active ) { return NULL ; } if ( len ( args ) is 0 ) { return e -> obj ; } foreach ( arg in args ) { if ( eq ( arg , e -> obj ) ) { return e -> obj ; } } if ( e -> depth >= 1 ) { longjmp ( * Exception_Buffer ( e ) , 1 ) ; } else { Exception_Error ( e ) ; } return NULL ; }".
+  "{ struct Exception * e = current ( Exception ) ; if ( not e -> active ) { return NULL ; } if ( len ( args ) is 0 ) { return e -> obj ; } size_t nargs = len ( args ) ; for ( size_t i = 0 ; i < nargs ; i ++ ) { if ( eq ( get ( args , $ I ( i ) ) , e -> obj ) ) { return e -> obj ; } } if ( e -> depth >= 1 ) { longjmp ( * Exception_Buffer ( e ) , 1 ) ; } else { Exception_Error ( e ) ; } return NULL ; }".
 Definition expected_src_buffer : string :=
   "{ if ( e -> depth == 0 ) { fprintf ( stderr , ""Cello Fatal Error: Exception Buffer Out of Bounds!\n"" ) ; abort ( ) ; } return e -> buffers [ e -> depth - 1 ] ; }".
 Definition expected_src_len : string :=
